@@ -26,14 +26,14 @@ def gen_cases(rng, tier):
         for off in vals:
             for ln in vals:
                 if tier == 'quick' and rng.random() < 0.75: continue
-                yield {'op': 'window', 'src': list(src), 'offset': off, 'length': ln, 'via': rng.choice(['bytes', 'bytesio', 'filename', 'handle', 'bitarray', 'bytearray']), 'cls': rng.choice(CLASSES)}
+                yield {'op': 'window', 'src': list(src), 'offset': off, 'length': ln, 'via': rng.choice(['bytes', 'bytesio', 'filename', 'handle', 'bitarray', 'bytearray']), 'cls': rng.choice(CLASSES), 'lsb0': rng.random() < 0.3}
     for _ in range(150 if tier == 'quick' else 3000):
         k = rng.choice([0, 1, 2, 5, 9, 40])
         src = [rng.randrange(256) for _ in range(k)]
         T = 8 * k
         off = rng.choice([None, 0, rng.randrange(0, T + 1), 8 * rng.randrange(0, k + 1), T + 1, -3])
         ln = rng.choice([None, 0, rng.randrange(0, T + 2), T, -1])
-        yield {'op': 'window', 'src': src, 'offset': off, 'length': ln, 'via': rng.choice(['bytes', 'bytesio', 'filename', 'handle', 'bitarray', 'bytearray']), 'cls': rng.choice(CLASSES)}
+        yield {'op': 'window', 'src': src, 'offset': off, 'length': ln, 'via': rng.choice(['bytes', 'bytesio', 'filename', 'handle', 'bitarray', 'bytearray']), 'cls': rng.choice(CLASSES), 'lsb0': rng.random() < 0.3}
     for _ in range(40 if tier == 'quick' else 400):
         w = rng.choice([8, 16, 3, 12, 32])
         k = rng.randrange(0, 9)
@@ -79,6 +79,7 @@ def run_impl(c):
         if c['length'] is not None: kw['length'] = c['length']
         C = cls_of(c['cls']); via = c['via']
         def f():
+            bitstring.options.lsb0 = bool(c.get('lsb0'))      # the selected window of the source is the same stored bits in both numberings (reset by the driver)
             if via == 'bytes': return C(bytes=src, **kw).bin
             if via == 'bytearray': return C(bytes=bytearray(src), **kw).bin
             if via == 'bytesio': return C(io.BytesIO(src), **kw).bin
